@@ -10,7 +10,14 @@ Two generated lists (tie G of DESIGN.md §2.1, C20 `every_loader_uses_fetcher`):
 * `fetchSites`: every call site of `fetch(…)` (urls.fetch) and every direct call of something named
   `url_fetcher` (`url_fetcher(…)`, `x.url_fetcher(…)`) as (file, enclosing function, callee).
 
-Props/C20.lean compares both with hand-written whitelists by `decide`: a new open/fetch site breaks the fact.
+* `handlerSites`: in the modules that load resources (`LOADER_FILES`), every `try` statement with the exception
+  classes its `except` clauses name, in source order, as (file, enclosing function, handlers) — `handlers` is the
+  clauses joined by ` | ` (`bare` for `except:`), followed by ` +finally` when there is a `finally` block.  The
+  models absorb exactly these classes (`Exc.isUrlFetching || Exc.isImageLoading` in `getImage`, `absorbFetchError`,
+  `except Exception: continue` in `fontLoop`, `except BaseException` in `drawSvg`): Props/C20.lean states the list for
+  the mirrored functions, so narrowing or widening an `except` clause breaks a proof.
+
+Props/C20.lean compares them with hand-written whitelists by `decide`: a new open/fetch site breaks the fact.
 """
 import ast
 import hashlib
@@ -24,6 +31,10 @@ OPEN_NAMES = {'open', 'urlopen', 'urlretrieve', 'Request', 'mkdtemp', 'mkstemp',
 OPEN_ATTRS = {'open', 'read_bytes', 'read_text', 'write_bytes', 'write_text', 'urlopen', 'urlretrieve', 'connect',
               'create_connection', 'getctime', 'getmtime', 'exists', 'stat', 'iterdir', 'glob', 'unlink', 'fdopen',
               'is_file', 'is_dir', 'listdir', 'scandir'}
+
+
+LOADER_FILES = {'urls.py', 'images.py', '__init__.py', 'css/__init__.py', 'text/fonts.py', 'svg/images.py', 'svg/defs.py',
+                'html.py', 'pdf/anchors.py', 'document.py', 'layout/background.py'}
 
 
 def arg_shape(call):
@@ -50,6 +61,7 @@ class Scanner(ast.NodeVisitor):
         self.stack = []
         self.opens = []
         self.fetches = []
+        self.handlers = []
 
     def scope(self):
         return '.'.join(self.stack) or '<module>'
@@ -61,6 +73,14 @@ class Scanner(ast.NodeVisitor):
 
     visit_AsyncFunctionDef = visit_FunctionDef
     visit_ClassDef = visit_FunctionDef
+
+    def visit_Try(self, node):
+        if self.rel in LOADER_FILES:
+            clauses = ' | '.join('bare' if handler.type is None else ast.unparse(handler.type) for handler in node.handlers)
+            self.handlers.append((self.rel, self.scope(), clauses + (' +finally' if node.finalbody else '')))
+        self.generic_visit(node)
+
+    visit_TryStar = visit_Try
 
     def visit_Call(self, node):
         func = node.func
@@ -82,7 +102,7 @@ def scan():
     root = REPO / 'weasyprint'
     if not root.is_dir():
         raise ExtractionError(f'{root} not found')
-    opens, fetches, digest = [], [], hashlib.sha256()
+    opens, fetches, handlers, digest = [], [], [], hashlib.sha256()
     for path in sorted(root.rglob('*.py')):
         rel = str(path.relative_to(root))
         source = path.read_text(encoding='utf-8')
@@ -94,13 +114,14 @@ def scan():
         scanner.visit(tree)
         opens.extend(scanner.opens)
         fetches.extend(scanner.fetches)
-    for entry in opens + fetches:
+        handlers.extend(scanner.handlers)
+    for entry in opens + fetches + handlers:
         digest.update(repr(entry).encode())
-    return opens, fetches, digest.hexdigest()[:16]
+    return opens, fetches, handlers, digest.hexdigest()[:16]
 
 
 def generate():
-    opens, fetches, sha = scan()
+    opens, fetches, handlers, sha = scan()
     text = f'''/- GENERATED by py/extract/fetch_sites.py from an AST scan of weasyprint/**/*.py (entries sha {sha}). Do not edit. -/
 namespace Wp.Gen
 
@@ -112,8 +133,13 @@ def openSites : List (String × String × String × String) := {lean_list(
 def fetchSites : List (String × String × String) := {lean_list(
         ['(' + ', '.join(lean_str(x) for x in e) + ')' for e in fetches])}
 
+/-- `try` statements of the resource-loading modules with the classes their `except` clauses name:
+(file, enclosing scope, handlers). -/
+def handlerSites : List (String × String × String) := {lean_list(
+        ['(' + ', '.join(lean_str(x) for x in e) + ')' for e in handlers])}
+
 end Wp.Gen
 '''
     changed = write_if_changed('FetchSites', text)
     return {'name': 'FetchSites', 'changed': changed, 'source': 'ast', 'sha256_of_source_span': sha,
-            'entries': len(opens) + len(fetches)}
+            'entries': len(opens) + len(fetches) + len(handlers)}
